@@ -105,6 +105,12 @@ class ElabPass:
         if module in self.CLASS_LEVEL_CACHE.done:
             return module
 
+        # A Module on which an earlier elaboration attempt failed may have been left half-rewritten
+        # by the pass that failed, and by then is only part-way through the pass list.
+        # It can not be safely elaborated again. Report the original error instead.
+        if getattr(module, "_elab_failure", None) is not None:
+            raise module._elab_failure
+
         # Add `module` to our elab stack.
         # This is helpful even if (especially if) we find it's a circular dependency next.
         self.stack.append(module)
@@ -115,24 +121,37 @@ class ElabPass:
             return self.fail(msg)
         self.CLASS_LEVEL_CACHE.pending.add(module)
 
-        # Depth-first traverse instances, ensuring their targets are defined
-        for inst in module.instances.values():
-            self.elaborate_instance_base(inst)
-        for arr in module.instarrays.values():
-            self.elaborate_instance_base(arr)
-        for instbundle in module.instbundles.values():
-            self.elaborate_instance_base(instbundle)
+        try:
+            # Depth-first traverse instances, ensuring their targets are defined
+            for inst in module.instances.values():
+                self.elaborate_instance_base(inst)
+            for arr in module.instarrays.values():
+                self.elaborate_instance_base(arr)
+            for instbundle in module.instbundles.values():
+                self.elaborate_instance_base(instbundle)
 
-        # Traverse Bundle instances
-        for bundle in module.bundles.values():
-            self.elaborate_bundle_instance(bundle)
+            # Traverse Bundle instances
+            for bundle in module.bundles.values():
+                self.elaborate_bundle_instance(bundle)
 
-        # Run the pass-specific `elaborate_module`
-        result = self.elaborate_module(module)
+            # Run the pass-specific `elaborate_module`
+            result = self.elaborate_module(module)
+
+        except Exception as e:
+            # Remember the failure on the innermost Module in which it happened.
+            # (Outer modules have not been touched by this pass yet.)
+            if getattr(e, "_hdl21_module", None) is None:
+                e._hdl21_module = module
+                module._elab_failure = e
+            raise
+
+        finally:
+            # Whatever happened, this Module is no longer "in flight".
+            # Leaving it pending would turn every later attempt into a spurious circular-dependency error.
+            self.CLASS_LEVEL_CACHE.pending.discard(module)
 
         # Pop the hierarchy-stack and return it
         self.stack.pop()
-        self.CLASS_LEVEL_CACHE.pending.remove(module)
         self.CLASS_LEVEL_CACHE.done.add(module)
         return result
 
